@@ -291,7 +291,7 @@ def process_chunk(args):
         for pj, ej in items:
             prog = progen.Program.from_json(pj)
             expect = expect_from_json(ej)
-            res = {'key': prog.key, 'kind': pj.get('kind'), 'features': pj.get('features', []), 'errors': [], 'cf': [], 'checker': [],
+            res = {'key': prog.key, 'kind': pj.get('kind'), 'features': pj.get('features', []), 'errors': [], 'cf': [], 'checker': [], 'c01cf': [],
                    'rt_failures': [], 'counts': {}, 'ncalls_static': {}, 'runs': 0, 'diverged': 0, 'traces': 0,
                    'directive_loops': len(expect['loops']), 'seen_directive_loops': 0}
             results.append(res)
@@ -315,6 +315,16 @@ def process_chunk(args):
                         lines.append(final_tree_request(tr)); owners.append((res, 'check', rec, tr))
                     except Exception as e:  # noqa
                         res['errors'].append('serialise final tree: %r' % (e,))
+                    # Props/C01CF.lean: hypotheses on the real table, conclusions on the model output and on the real trees
+                    b0 = sexp(list(mod.f.__code__.co_freevars))
+                    if req is not None:
+                        lines.append('c01cf.eval' + req[len('c03.cf'):] + ' ' + b0); owners.append((res, 'c01cf.eval', rec, tr))
+                        k_, ps_ = c03_cf.cf_pass(tr)
+                        aft = ps_.after if isinstance(ps_.after, list) and ps_.after and isinstance(ps_.after[0], list) else [ps_.after]
+                        lines.append('c01cf.check %s %s' % (sexp(c03_cf.canon(c03_cf._norm(aft))), b0))
+                        owners.append((res, 'c01cf.pass', rec, tr))
+                        lines.append('c01cf.check' + final_tree_request(tr)[len('c03.check'):] + ' ' + b0)
+                        owners.append((res, 'c01cf.final', rec, tr))
                 for op, n in c03_cf.count_ops(tr).items():
                     res['ncalls_static'][op] = res['ncalls_static'].get(op, 0) + n
                 # ---------------- runtime part
@@ -371,6 +381,12 @@ def process_chunk(args):
                 if what == 'cf':
                     d = c03_cf.compare_cf(tr, ans)
                     res['cf'].append({'recursive': rec, 'difference': d})
+                elif what.startswith('c01cf'):
+                    try:
+                        flags = [x == 'True' for x in parse_sexp(ans)]
+                    except Exception:  # noqa
+                        flags = None
+                    res['c01cf'].append({'recursive': rec, 'what': what, 'flags': flags, 'answer': ans[:200]})
                 else:
                     ok = ans.startswith('(True')
                     res['checker'].append({'recursive': rec, 'ok': ok, 'answer': None if ok else ans[:1500],
@@ -442,6 +458,38 @@ def lean_replay(run, corp):
         run.cov.setdefault('lean_counterexample_replay', {})[fn] = ans[:400]
 
 
+VARS_WITNESS = progen.PRELUDE + '''def f(a, b, c):
+    vars_ = a
+    if b:
+        vars_ = vars_ + 1
+    return vars_
+'''
+
+
+def vars_witness(run):
+    """Replay of `C01CF_params_declared_counterexample` (Props/C01CF.lean) on the real code: a state variable called
+    `vars_` (C11 finding user_name_equals_hard_coded_template_identifier).  The model must say: hypothesis pdHypS false,
+    conclusion pdOkL false on its output; the real conversion is expected to die with
+    "name 'vars_' is parameter and nonlocal" (recorded, not judged here: the finding belongs to C11)."""
+    sys.path.insert(0, common.REPO)
+    p = progen.Program(VARS_WITNESS, [(1, 2, 3)], [], 'witness')
+    with progen.Workspace() as ws:
+        mod = ws.load(p)
+        tr = passes.trace_conversion(mod.f, passes.make_options())
+        req = c03_cf.cf_request(tr)
+        ws.unload(mod)
+    real = repr(tr.error)[:200] if tr.error is not None else 'converted without error'
+    ans = run.drive(['c01cf.eval' + req[len('c03.cf'):] + ' ()'])[0] if req is not None else 'no-request'
+    try:
+        fl = [x == 'True' for x in parse_sexp(ans)]
+        ok = len(fl) == 6 and not fl[1] and not fl[4]
+    except Exception:  # noqa
+        ok = False
+    run.evaluations += 1
+    run.oblige('counterexample:c01cf-vars_-replay', 'counterexample', ok, 'model answered %s; real conversion: %s' % (ans, real))
+    run.cov['c01cf_vars_witness'] = {'model (noSkip pdHyp nlHyp routed pdOk nlOk)': ans, 'real_conversion': real}
+
+
 def absorb(run, results, progs_by_key, stats, corpus_expect=None):
     """Fold worker results into the run: cases, failures, correspondence/checker disagreements."""
     cf_dis, ck_bad = [], []
@@ -473,6 +521,33 @@ def absorb(run, results, progs_by_key, stats, corpus_expect=None):
             stats['checker_calls'] += c.get('ncalls') or 0
             if not c['ok']:
                 ck_bad.append({'program': prog.to_json(), 'recursive': c['recursive'], 'checker_answer': c['answer']})
+        for c in res.get('c01cf', []):
+            cs = stats['c01cf']
+            fl = c['flags']
+            if c['what'] == 'c01cf.eval':
+                cs['tables'] += 1
+                if fl is None or len(fl) != 6:
+                    cs['bad_answers'] += 1
+                    continue
+                no_skip, pd_h, nl_h, routed, pd_m, nl_m = fl
+                cs['no_skip'] += no_skip; cs['pd_hyp'] += pd_h; cs['nl_hyp'] += nl_h
+                cs['model_routed'] += routed; cs['model_pd'] += pd_m; cs['model_nl'] += nl_m
+                # what the theorems say: hypothesis => conclusion on the model output
+                if (no_skip and not routed) or (pd_h and not pd_m) or (nl_h and not nl_m):
+                    cs['theorem_contradicted'].append({'program': prog.to_json(), 'recursive': c['recursive'], 'flags': fl})
+                if not (pd_h and nl_h) and len(cs['hyp_false_samples']) < 3:
+                    cs['hyp_false_samples'].append({'program': prog.function_source()[-700:], 'recursive': c['recursive'],
+                                                    'pd_hyp': pd_h, 'nl_hyp': nl_h})
+            else:
+                key = 'real_pass' if c['what'] == 'c01cf.pass' else 'real_final'
+                cs[key + '_trees'] += 1
+                if fl is None or len(fl) != 3:
+                    cs['bad_answers'] += 1
+                    continue
+                for name, ok in zip(('routed', 'pd', 'nl'), fl):
+                    cs[key + '_' + name] += ok
+                    if not ok and len(cs['real_bad']) < 6:
+                        cs['real_bad'].append({'program': prog.to_json(), 'recursive': c['recursive'], 'tree': key, 'predicate': name})
         for f in res['rt_failures']:
             run.fail(f['what'], {'program': prog.to_json(), 'recursive': f['recursive'], 'input': f['input'],
                                  'decisions': f['decisions'], 'detail': f['detail']}, f['cls'])
@@ -481,7 +556,11 @@ def absorb(run, results, progs_by_key, stats, corpus_expect=None):
 
 def new_stats():
     return {'programs': 0, 'traces': 0, 'runs': 0, 'diverged': 0, 'rt': {}, 'static_calls': {}, 'features': {}, 'errors': {},
-            'cf_cases': 0, 'checker_cases': 0, 'checker_calls': 0, 'directive_loops': 0, 'seen_directive_loops': 0}
+            'cf_cases': 0, 'checker_cases': 0, 'checker_calls': 0, 'directive_loops': 0, 'seen_directive_loops': 0,
+            'c01cf': dict({k: 0 for k in ('tables', 'bad_answers', 'no_skip', 'pd_hyp', 'nl_hyp', 'model_routed', 'model_pd', 'model_nl',
+                                          'real_pass_trees', 'real_pass_routed', 'real_pass_pd', 'real_pass_nl',
+                                          'real_final_trees', 'real_final_routed', 'real_final_pd', 'real_final_nl')},
+                          theorem_contradicted=[], hyp_false_samples=[], real_bad=[])}
 
 
 def run_pool(items, use_driver, extra_dec=(), chunk=6, focus=False):
@@ -498,6 +577,62 @@ def run_pool(items, use_driver, extra_dec=(), chunk=6, focus=False):
     return out
 
 
+def audit_module(run, module, model_files):
+    """Build one more Props module and audit it like common.Run.build_and_audit does (one obligation per theorem: builds and
+    depends on allowed axioms only; forbidden constructs grep), with an audit file private to this process so that
+    concurrent runs cannot clobber each other."""
+    import re
+    relpath = module.replace('.', '/') + '.lean'
+    names = common.theorems_in(relpath)
+    ok, log = run.lean_build([module])
+    if not ok:
+        errs = [l for l in log.split('\n') if 'error' in l][:8]
+        for n in names:
+            run.oblige('theorem:' + n, 'theorem', False, '\n'.join(errs))
+        return False
+    audit_dir = os.path.join(common.LEAN, '.lake', 'audit')
+    os.makedirs(audit_dir, exist_ok=True)
+    path = os.path.join(audit_dir, 'Audit_%s_%d.lean' % (module.split('.')[-1], os.getpid()))
+    with open(path, 'w') as f:
+        f.write('import %s\n' % module + ''.join('#print axioms %s\n' % n for n in names))
+    try:
+        with common.LakeLock():
+            rc, out = common.sh(['lake', 'env', 'lean', path], cwd=common.LEAN, timeout=900)
+    finally:
+        try:
+            os.remove(path)
+        except OSError:
+            pass
+    axioms = {}
+    for m in re.finditer(r"'([^']+)' depends on axioms: \[([^\]]*)\]", out):
+        axioms[m.group(1)] = [a.strip() for a in m.group(2).replace('\n', ' ').split(',') if a.strip()]
+    for m in re.finditer(r"'([^']+)' does not depend on any axioms", out):
+        axioms[m.group(1)] = []
+    good = True
+    for n in names:
+        if n not in axioms:
+            run.oblige('theorem:' + n, 'theorem', False, 'not found by #print axioms: ' + out[-400:]); good = False
+        else:
+            extra = [a for a in axioms[n] if a not in common.ALLOWED_AXIOMS]
+            run.oblige('theorem:' + n, 'theorem', not extra, 'axioms: %s' % axioms[n]); good = good and not extra
+    run.cov.setdefault('axioms_other_modules', {}).update(axioms)
+    hits = []
+    for rp in [relpath] + list(model_files):
+        fp = os.path.join(common.LEAN, rp)
+        if os.path.exists(fp):
+            with open(fp) as f:
+                body = common.strip_comments(f.read())
+            for i, line in enumerate(body.split('\n'), 1):
+                if common.FORBIDDEN.search(line):
+                    hits.append('%s:%d: %s' % (rp, i, line.strip()[:120]))
+    run.oblige('grep:no-sorry-axiom-native_decide:' + module.split('.')[-1], 'audit', not hits, '\n'.join(hits))
+    if run.tier == 'thorough':
+        with common.LakeLock():
+            rc, out = common.sh(['lake', 'env', 'leanchecker', module], cwd=common.LEAN, timeout=3000)
+        run.oblige('leanchecker:' + module, 'audit', rc == 0, out[-800:])
+    return good and not hits
+
+
 def check(run, only=None):
     run.rule = ('programs = bounded-exhaustive control-flow skeletons (if/while/for/with/try/def nests with break/continue/'
                 'return/raise; stride-sampled when above the cap) + typed random programs of the C01 class (composite state: '
@@ -511,6 +646,10 @@ def check(run, only=None):
         'annotation tables are consumed as recorded from the real analyses (the model of the pass is parametric in them); QN strings are re-parsed by the model (Literal keys 1/True/1.0 that compare equal are not distinguished by the real QN either)',
         'directives: the instrumented check identifies a loop by the value of maximum_iterations the generator gave it',
     ]
+    # theorems about the same model that C01 audits (routing, the-module-loads side obligations)
+    audit_module(run, 'MaltModel.Props.C01CF', ['MaltModel/Conv/CFSpec.lean', 'MaltModel/Proofs/C01CF.lean'])
+    # where loop annotations come from in the SOURCE (model of DirectivesTransformer: Conv/Directives.lean, tied by C04)
+    audit_module(run, 'MaltModel.Props.C03Directives', ['MaltModel/Conv/DirectivesSpec.lean', 'MaltModel/Proofs/C03Directives.lean'])
     run.build_and_audit('MaltModel.Props.C03', model_files=MODEL_FILES)
 
     stats = new_stats()
@@ -544,6 +683,7 @@ def check(run, only=None):
         run.cov['corpus'] = status
         if run.driver_ok:
             lean_replay(run, corp)
+            vars_witness(run)
     else:
         cf_dis0, ck_bad0 = [], []
 
@@ -564,6 +704,17 @@ def check(run, only=None):
         run.oblige('checker:contractOk-on-real-output', 'checker', not ck_bad, json.dumps(ck_bad[:2])[:1800] if ck_bad else '')
         for b in ck_bad[:5]:
             run.fail('the final generated code violates the calling contract (verified checker contractOk = false)', b, None)
+        cs = stats['c01cf']
+        run.oblige('consistency:c01cf-hypothesis-implies-conclusion-on-model-output', 'correspondence',
+                   not cs['theorem_contradicted'] and not cs['bad_answers'], json.dumps(cs['theorem_contradicted'][:1])[:1200])
+        bad = [b for b in cs['real_bad']]
+        run.oblige('checker:c01cf-routing-params-nonlocals-on-real-output', 'checker',
+                   not bad, json.dumps(bad[:2])[:1500] if bad else '')
+        for b in bad[:3]:
+            run.fail('the real output violates %s (Props/C01CF.lean predicate) in the %s tree' % (
+                {'routed': 'routing: a native if/while/for is left', 'pd': 'a name is both parameter and declared global/nonlocal',
+                 'nl': 'a nonlocal declaration has no binding in an enclosing function scope'}[b['predicate']], b['tree']), b, None)
+        run.cov['c01cf'] = {k: v for k, v in cs.items() if k not in ('theorem_contradicted', 'real_bad')}
     else:
         run.oblige('correspondence:c03.cf', 'correspondence', False, 'driver unavailable')
         run.oblige('checker:contractOk-on-real-output', 'checker', False, 'driver unavailable')
